@@ -65,6 +65,7 @@ const LIT_POOL: &[&str] = &["a", "b", "c", "x", "0", "1", "_", "-", " ", "é", "
 const CLASS_POOL: &[&str] = &[
     "[a-c]", "[b-x]", "[ac]", "[^a]", "[^\\n]", "\\d", "\\w", "\\s", ".", "[0-9a-f]", "[a-c&&b-x]", "[\\w--\\d]",
     "\\pL", "[[:alpha:]]", "[é€]", "[a-cx-z]", "[^\\w\\s]", "\\D", "[\\s--\\n]", "[a-z0-9_]", "[\\u{80}-\\u{10FFFF}]",
+    "\\PL", "\\p{Lowercase}", "\\P{Lowercase}", "\\W", "\\S", "[^a-c]", "[A-C]",
 ];
 const INPUT_ALPHABET: &[char] =
     &['a', 'b', 'c', 'x', 'z', '0', '1', '9', '_', '-', ' ', '\n', 'é', '€', '😀', '!', 'Z', '.', '+', '\t'];
